@@ -21,9 +21,12 @@ enum Answer {
     Wrong,
     Error,
     Close,
+    /// a different value that a lenient comparison would accept: the echo
+    /// with a leading zero (equal as a number, not as a value)
+    NearMiss,
 }
 
-const ANSWERS: [Answer; 5] = [Answer::Correct, Answer::Stale, Answer::Wrong, Answer::Error, Answer::Close];
+const ANSWERS: [Answer; 6] = [Answer::Correct, Answer::Stale, Answer::Wrong, Answer::Error, Answer::Close, Answer::NearMiss];
 
 #[derive(Default)]
 struct Conn {
@@ -137,6 +140,7 @@ async fn serve(s: UnixStream, id: usize) {
                     Answer::Correct => bulk(&arg),
                     Answer::Stale => bulk(&stale),
                     Answer::Wrong => bulk("definitely-not-the-echo"),
+                    Answer::NearMiss => bulk(&format!("0{}", arg)),
                     Answer::Error => b"-ERR scripted failure\r\n".to_vec(),
                     Answer::Close => {
                         w(|w| w.conns[id].closed = true);
@@ -357,8 +361,8 @@ pub fn scenarios(tier: Tier) -> Vec<Scenario> {
     let mut v = Vec::new();
     for ms in [1usize, 2] {
         let depth = match (thorough, ms) {
-            (false, 1) => 6,
-            (false, _) => 5,
+            (false, 1) => 5,
+            (false, _) => 4,
             (true, 1) => 8,
             (true, _) => 7,
         };
